@@ -1,35 +1,52 @@
 /* Specification vocabulary for ikos::congruence<z_number> (include/crab/domains/congruence_impl.hpp,
- * lib/congruence.cpp).  Shared by contracts.c (CBMC) and replay.cpp (native).
- * C is the compiler's lowering of the class with z_number replaced by the integer model
- * (models/zmodel.h): C = { f0 = m_is_bottom, f1 = m_a (modulus), f2 = m_b (remainder) }.
+ * lib/congruence.cpp).  Shared by contracts.c (CBMC) and replay.cpp (native): the POST_* / SOUND_* macros below are
+ * the postconditions of the contracts, word for word.
+ * C is the compiler's lowering of the class with z_number replaced by the integer model (models/zmodel.h):
+ *   C = { f0 = m_is_bottom, f1 = m_a (modulus), f2 = m_b (remainder) }.
  *
- * Arithmetic vocabulary.  `*`, `/`, `%` of the model are ZM_mul / ZM_div / ZM_rem (truncating).  They are the
- * bit-precise machine operations under -DZM_PRECISE (then all inputs are bounded by 2^ZBITS, a BOUNDED check)
- * and uninterpreted symbols with sign/unit axioms otherwise (then a check is a proof for all magnitudes below
- * 2^ZBITS = 2^40, the "unbounded" reading of DESIGN 2.4a, and divisibility facts enter as explicit lemma
- * instances, see lemmas.smt2). */
+ * Three arithmetic modes (the non-linear operations `*`, `/`, `%` of the number model):
+ *   default       UNBOUNDED.  They are the uninterpreted symbols of models/zmodel.c with its sign/unit axioms.  A
+ *                 check is then a proof for all inputs below 2^ZBITS = 2^40 in magnitude (DESIGN 2.4a); whatever it
+ *                 needs to know about divisibility enters as explicit instances K_* of the five kernel facts of
+ *                 lemmas.smt2 (division identity, uniqueness of the quotient, distributivity, associativity,
+ *                 commutativity), written as hypotheses LEM(...) of the postcondition.
+ *   -DZM_SMALL=n  BOUNDED cross-check: machine arithmetic on n bits (zsmall.c), inputs below 2^ZBITS (ZBITS = 3).
+ *                 SAT has to enumerate: 2^20 input combinations take about 30 s, hence the small bound.
+ *   C++           native replay: machine arithmetic on __int128.
+ */
 #ifndef CONGRUENCE_SPEC_H
 #define CONGRUENCE_SPEC_H
 #include "verif.h"
 #include "unit_types.h"
+#ifndef __cplusplus
 #include "zmodel.h"
+#else
+typedef struct S_class_ikos__z_number Z;
+#define ZLIM (((i128)1) << 100)
+#endif
 typedef struct S_class_ikos__congruence C;
 #ifndef ZBITS
 #define ZBITS 40
 #endif
 #define ZB (((i128)1) << ZBITS)     /* modulus and remainder of INPUTS lie strictly inside (-ZB, ZB) */
+#define ZB2 (ZB * ZB * 4)           /* products of two inputs */
+#ifndef CTBITS
+#define CTBITS (2 * ZBITS + 2)
+#endif
+#define CTB (((i128)1) << CTBITS)   /* magnitudes accepted by the private (a, b) constructor and the gcd helpers */
+#define IMP(p, q) (!(p) || (q))
+
 /* S_mul / S_div / S_rem: the specification's own reading of the three non-linear model operations.  They denote the
  * same mathematical functions as ZM_mul / ZM_div / ZM_rem of the model but are separate C functions: the model's are
  * instrumented by goto-instrument (frame checking) because the code under contract calls them, and can then not be
  * called from a contract clause. */
-#if defined(__cplusplus) || defined(ZM_PRECISE)
+#if defined(__cplusplus)
 static inline i128 S_mul(i128 a, i128 b){ return a * b; }
-static inline i128 S_div(i128 a, i128 b){ return a / b; }
-static inline i128 S_rem(i128 a, i128 b){ return a % b; }
+static inline i128 S_div(i128 a, i128 b){ return b == 0 ? 0 : a / b; }
+static inline i128 S_rem(i128 a, i128 b){ return b == 0 ? 0 : a % b; }
 #elif defined(ZM_SMALL)
-/* bounded mode (zsmall.c): schoolbook shift-and-subtract division on ZM_SMALL-bit magnitudes (a circuit through
- * which a SAT solver propagates operand values forward, unlike the multiplier relation q*b+r = a that cbmc builds
- * for `/`).  Every value the specification feeds them is bounded by a precondition (GRANGE, ZB2) below 2^(ZM_SMALL-2). */
+/* bounded mode (zsmall.c): schoolbook shift-and-subtract division on ZM_SMALL-bit magnitudes.  Every value the
+ * specification feeds them is bounded by a precondition (GRANGE, CTB) below 2^(ZM_SMALL-2). */
 #if ZM_SMALL == 16
 typedef uint16_t su_t; typedef int32_t sw_t;
 #else
@@ -74,8 +91,8 @@ static inline bool inb(i128 v, i128 z){ return v > -z && v < z; }
 
 /* ---- divisibility on the integers:  a | x  (0 | x iff x = 0) */
 static inline bool dvd(i128 a, i128 x){ return a == 0 ? x == 0 : S_rem(x, a) == 0; }
-/* x mod a in [0, |a|) for a != 0 (the remainder of a normal form) */
-static inline i128 fmod_(i128 x, i128 a){ i128 r = S_rem(x, a); return r < 0 ? r + iabs(a) : r; }
+/* x mod |a| in [0, |a|) for a != 0 (the remainder of a normal form) */
+static inline i128 fmod_(i128 x, i128 a){ i128 r = S_rem(x, iabs(a)); return r < 0 ? r + iabs(a) : r; }
 
 /* ---- the class */
 static inline bool c_bot(C c){ return c.f0 != 0; }
@@ -86,8 +103,8 @@ static inline i128 c_b(C c){ return zraw(c.f2); }
 static inline bool c_okz(C c, i128 z){
   return c.f0 <= 1 && inb(c_a(c), z) && inb(c_b(c), z) && c_a(c) >= 0 && (c_a(c) == 0 || (0 <= c_b(c) && c_b(c) < c_a(c))); }
 static inline bool c_ok(C c){ return c_okz(c, ZB); }
-/* concretisation: v is described by c.   a = 0 ? v = b : (v - b) mod a = 0 */
-static inline bool ab_has(i128 a, i128 b, i128 v){ return dvd(a, v - b); }
+/* concretisation: v is described by aZ+b:   a = 0 ? v = b : (v - b) mod a = 0 */
+static inline bool ab_has(i128 a, i128 b, i128 v){ return dvd(iabs(a), v - b); }
 static inline bool c_has(C c, i128 v){ return !c_bot(c) && ab_has(c_a(c), c_b(c), v); }
 static inline bool c_top(C c){ return !c_bot(c) && c_a(c) == 1; }
 static inline bool c_single(C c){ return !c_bot(c) && c_a(c) == 0; }
@@ -102,4 +119,32 @@ static inline bool c_leq(C x, C y){ return c_bot(x) || (!c_bot(y) && dvd(c_a(y),
 static inline i128 fshr(i128 v, i128 k){ return k >= 127 ? (v < 0 ? -1 : 0) : (v < 0 ? ~((~v) >> (unsigned)k) : (v >> (unsigned)k)); }
 /* v * 2^k for 0 <= k < 100 */
 static inline i128 shl_(i128 v, i128 k){ return (i128)((u128)v << (unsigned)k); }
+
+/* ================================================================ kernel facts (lemmas.smt2), as instances
+ * Every K_* is a valid statement about the integers for all arguments; LEM(e) makes it a hypothesis of a postcondition
+ * in the unbounded mode and drops it (it is true) in the bounded mode. */
+#define M_ S_mul
+#define D_ S_div
+#define R_ S_rem
+/* division identity: y != 0  ==>  x = y * (x / y) + x % y,  |x % y| < |y|,  x % y = 0 or of the sign of x */
+static inline bool K_DIV(i128 x, i128 y){ return y == 0 || (x == M_(y, D_(x, y)) + R_(x, y) && iabs(R_(x, y)) < iabs(y) && (R_(x, y) == 0 || (R_(x, y) > 0) == (x > 0))); }
+/* uniqueness: d != 0, d*m = d*q + r, |r| < |d|  ==>  m = q, r = 0 */
+static inline bool K_UNIQ(i128 d, i128 m, i128 q, i128 r){ return !(d != 0 && M_(d, m) == M_(d, q) + r && iabs(r) < iabs(d)) || (m == q && r == 0); }
+static inline bool K_DIST(i128 a, i128 b, i128 c){ return M_(a, b + c) == M_(a, b) + M_(a, c); }
+static inline bool K_ASSOC(i128 a, i128 b, i128 c){ return M_(M_(a, b), c) == M_(a, M_(b, c)); }
+static inline bool K_COMM(i128 a, i128 b){ return M_(a, b) == M_(b, a); }
+/* derived, by propositional reasoning that CBMC does itself:
+ *   L_EXP(a, x): if a | x then x = a * (x / a)               (a cofactor)
+ *   L_CON(a, x, w): if x = a * w then a | x                   (the converse)
+ *   L_MULM1(a, q): a * (q - 1) = a * q - a,  L_NEG(a, q): a * (-q) = -(a * q) */
+#define COF(a, x) D_(x, a)
+static inline bool L_EXP(i128 a, i128 x){ return K_DIV(x, a); }
+static inline bool L_CON(i128 a, i128 x, i128 w){ return K_DIV(x, a) && K_UNIQ(a, w, D_(x, a), R_(x, a)); }
+static inline bool L_MULM1(i128 a, i128 q){ return K_DIST(a, q, -1); }
+static inline bool L_NEG(i128 a, i128 q){ return K_DIST(a, q, -q); }
+#if defined(ZM_SMALL)
+#define LEM(e) 1
+#else
+#define LEM(e) (e)
+#endif
 #endif
